@@ -24,11 +24,7 @@ TYPES = {"SRT_TYPE_ACK": 0x8002, "SRT_TYPE_NAK": 0x8003, "SRTLA_TYPE_KEEPALIVE":
          "SRTLA_TYPE_REG2": 0x9201, "SRTLA_TYPE_REG3": 0x9202, "SRTLA_TYPE_REG_ERR": 0x9210, "SRTLA_TYPE_REG_NGP": 0x9211}
 
 
-def up(fn, name):
-    for i, n in fn.upvar_names.items():
-        if n == name:
-            return ("upvar", i)
-    return None
+from ..roles import up  # noqa: E402
 
 
 def type_is(pa, code, subject_pred=None):
